@@ -18,6 +18,11 @@
 //!     into the client's `request_tx`; 2: the future of `MockExecution::open_order` is polled once
 //!     and dropped - a client-side timeout). Its answer is not observable (`out` = "lost"); its
 //!     effects on ledger, fills, ids and notifications must be those of an answered request.
+//!     `kill` ends the exchange task (`"up": false` in a scenario's init: before the first request;
+//!     `"drop": 3` on a request: while that request is in flight - queued, not yet handled): every
+//!     client call must then answer `ExchangeOffline(<mocked exchange>)`, open / cancel responses
+//!     echoing the request; the ledger is no longer observable, `post` repeats the last one.
+//!     `cancel` (mode run only) sends a cancel request, which the mock does not support.
 //!
 //! One NDJSON line per request: the request, the answer, the query result and `post` = the
 //! projected ledger. Amounts are integer 1/100 units, times are ms offsets from the harness epoch.
@@ -29,13 +34,13 @@ use barter_execution::{
         ExecutionClient,
         mock::{MockExecution, MockExecutionClientConfig, MockExecutionConfig},
     },
-    error::{ApiError, UnindexedOrderError},
+    error::{ApiError, ConnectivityError, UnindexedClientError, UnindexedOrderError},
     exchange::mock::{MockExchange, request::MockExchangeRequest},
     order::{
         Order, OrderKey, OrderKind, TimeInForce,
         id::{ClientOrderId, OrderId, StrategyId},
-        request::{OrderRequestOpen, RequestOpen},
-        state::{ActiveOrderState, Open, OrderState},
+        request::{OrderRequestCancel, OrderRequestOpen, RequestCancel, RequestOpen},
+        state::{ActiveOrderState, Cancelled, InactiveOrderState, Open, OrderState},
     },
     trade::Trade,
 };
@@ -113,12 +118,20 @@ fn open_order_json(o: &Order<ExchangeId, InstrumentNameExchange, Open>) -> Value
     })
 }
 
+fn cancelled_order_json(o: &Order<ExchangeId, InstrumentNameExchange, Cancelled>) -> Value {
+    json!({
+        "cid": o.key.cid.0.as_str(), "instr": o.key.instrument.name().as_str(), "side": side_str(o.side),
+        "p": dec_json(o.price), "q": dec_json(o.quantity), "filled": 0, "st": "cancelled",
+    })
+}
+
 fn snapshot_orders_json(s: &UnindexedAccountSnapshot) -> Value {
     let mut v: Vec<Value> = vec![];
     for i in &s.instruments {
         for o in &i.orders {
             let (st, filled) = match &o.state {
                 OrderState::Active(ActiveOrderState::Open(open)) => ("open", open.filled_quantity),
+                OrderState::Inactive(InactiveOrderState::Cancelled(_)) => ("cancelled", Decimal::ZERO),
                 _ => ("other", Decimal::ZERO),
             };
             // an order filed under another instrument's entry is shown under the entry's name
@@ -161,8 +174,28 @@ fn response_json(r: &Response) -> (Value, Value, Value, Value, Value) {
             };
             (json!("rej"), json!(why), json!(-1), json!(0), json!(-1))
         }
-        Err(UnindexedOrderError::Connectivity(_)) => (json!("offline"), json!("-"), json!(-1), json!(0), json!(-1)),
+        Err(UnindexedOrderError::Connectivity(c)) => (json!(offline_str(c)), json!("-"), json!(-1), json!(0), json!(-1)),
     }
+}
+
+/// "offline" = exactly `ExchangeOffline(<the mocked exchange>)`
+fn offline_str(c: &ConnectivityError) -> &'static str {
+    match c {
+        ConnectivityError::ExchangeOffline(e) if *e == EXCHANGE => "offline",
+        _ => "connectivity-other",
+    }
+}
+fn client_err_str(e: &UnindexedClientError) -> &'static str {
+    match e {
+        UnindexedClientError::Connectivity(c) => offline_str(c),
+        _ => "client-error-other",
+    }
+}
+
+/// does an open-order response carry the request's own key, side, price, quantity, kind, tif?
+fn echoes(resp: &Response, req: &OrderRequestOpen<ExchangeId, InstrumentNameExchange>) -> i64 {
+    (resp.key == req.key && resp.side == req.state.side && resp.price == req.state.price && resp.quantity == req.state.quantity
+        && resp.kind == req.state.kind && resp.time_in_force == req.state.time_in_force) as i64
 }
 
 fn empty_res() -> Value {
@@ -210,7 +243,11 @@ fn config_of(init: &Value) -> MockExecutionConfig {
             quantity: dec(i(o, "q")),
             kind: OrderKind::Limit,
             time_in_force: TimeInForce::GoodUntilCancelled { post_only: false },
-            state: OrderState::active(Open::new(OrderId::new(format!("x-{}", s(o, "cid"))), time_ms(0), dec(i(o, "filled")))),
+            state: if s(o, "st") == "cancelled" {
+                OrderState::inactive(Cancelled::new(OrderId::new(format!("x-{}", s(o, "cid"))), time_ms(0)))
+            } else {
+                OrderState::active(Open::new(OrderId::new(format!("x-{}", s(o, "cid"))), time_ms(0), dec(i(o, "filled"))))
+            },
         };
         match by_instr.iter_mut().find(|e| e.instrument == instrument) {
             Some(e) => e.orders.push(order),
@@ -264,6 +301,7 @@ enum Sut {
         stream: BoxStream<'static, UnindexedAccountEvent>,
         lat: i64,
         task: tokio::task::JoinHandle<()>,
+        killed: bool,
     },
 }
 
@@ -273,16 +311,20 @@ struct Answer {
     id: Value,
     filled: Value,
     rt: Value,
+    echo: i64,
     res: Value,
     notifs: Vec<Value>,
 }
 
 impl Answer {
     fn query(res: Value) -> Self {
-        Self { out: json!("query"), why: json!("-"), id: json!(-1), filled: json!(0), rt: json!(-1), res, notifs: vec![] }
+        Self { out: json!("query"), why: json!("-"), id: json!(-1), filled: json!(0), rt: json!(-1), echo: 1, res, notifs: vec![] }
     }
-    fn offline() -> Self {
-        Self { out: json!("offline"), why: json!("-"), id: json!(-1), filled: json!(0), rt: json!(-1), res: empty_res(), notifs: vec![] }
+    fn failed(e: &UnindexedClientError) -> Self {
+        Self::plain(client_err_str(e))
+    }
+    fn plain(out: &str) -> Self {
+        Self { out: json!(out), why: json!("-"), id: json!(-1), filled: json!(0), rt: json!(-1), echo: 1, res: empty_res(), notifs: vec![] }
     }
 }
 
@@ -308,7 +350,7 @@ impl Sut {
                 });
                 let stream = client.account_stream(&[], &[]).await.expect("account stream");
                 let task = tokio::spawn(MockExchange::new(config, request_rx, event_tx, instruments()).run());
-                Sut::Run { client, stream, lat: i(init, "lat"), task }
+                Sut::Run { client, stream, lat: i(init, "lat"), task, killed: false }
             }
             m => usage(&format!("unknown mode {m}")),
         }
@@ -325,8 +367,9 @@ impl Sut {
                 match op {
                     "open" => {
                         let req = request_of(r, n);
-                        let (resp, notifications) = catch(|| ex.open_order(req))?;
+                        let (resp, notifications) = catch(|| ex.open_order(req.clone()))?;
                         let (out, why, id, filled, rt) = response_json(&resp);
+                        let echo = echoes(&resp, &req);
                         let mut notifs = vec![];
                         if let Some(nf) = notifications {
                             // MockExchange::run: ack_trade + send_notifications
@@ -334,7 +377,7 @@ impl Sut {
                             notifs.push(balance_notif(&nf.balance.0));
                             notifs.push(trade_notif(&nf.trade));
                         }
-                        Ok(Answer { out, why, id, filled, rt, res: empty_res(), notifs })
+                        Ok(Answer { out, why, id, filled, rt, echo, res: empty_res(), notifs })
                     }
                     "snapshot" => {
                         let snap = catch(|| ex.account_snapshot())?;
@@ -348,21 +391,40 @@ impl Sut {
                         res["bal"] = bal_json(ex.account.balances());
                         Ok(Answer::query(res))
                     }
+                    "orders" => {
+                        // MockExchange::run: FetchOrdersOpen
+                        let mut res = empty_res();
+                        res["open"] = Value::Array(ex.account.orders_open().map(open_order_json).collect());
+                        Ok(Answer::query(res))
+                    }
                     "trades" => {
                         let mut res = empty_res();
                         res["trades"] = Value::Array(ex.account.trades(time_ms(i(r, "since"))).map(trade_json).collect());
                         Ok(Answer::query(res))
                     }
-                    o => usage(&format!("unknown op {o}")),
+                    o => usage(&format!("op {o} is not available in mode direct")),
                 }
             }
-            Sut::Run { client, stream, lat, task } => {
+            Sut::Run { client, stream, lat, task, killed } => {
                 CLIENT_CLOCK_MS.store(t, Ordering::SeqCst);
-                let abandon = r.get("drop").and_then(|d| d.as_i64()).unwrap_or(0);
+                let flag = r.get("drop").and_then(|d| d.as_i64()).unwrap_or(0);
+                if op == "kill" {
+                    task.abort();
+                    *killed = true;
+                    // the aborted task (and with it the request receiver) is dropped when it is next scheduled
+                    tokio::time::sleep(std::time::Duration::from_millis(1)).await;
+                    let mut answer = Answer::plain("killed");
+                    while let Some(Some(ev)) = stream.next().now_or_never() {
+                        answer.notifs.push(notif_json(&ev));
+                    }
+                    return Ok(answer);
+                }
+                // `"drop": 3`: the exchange task ends while this request is in flight
+                let inflight = flag == 3 && !*killed;
                 let mut answer = match op {
-                    "open" if abandon > 0 => {
+                    "open" if flag == 1 || flag == 2 => {
                         let req = request_of(r, n);
-                        if abandon == 1 {
+                        if flag == 1 {
                             let (response_tx, response_rx) = tokio::sync::oneshot::channel();
                             drop(response_rx);
                             let _ = client.request_tx.send(MockExchangeRequest::open_order(client.time_request(), response_tx, req));
@@ -377,7 +439,7 @@ impl Sut {
                         }
                         // nobody awaits an answer: let the exchange handle it and its latency pass
                         tokio::time::sleep(std::time::Duration::from_millis(*lat as u64 + 1)).await;
-                        Answer { out: json!("lost"), why: json!("-"), id: json!(-1), filled: json!(0), rt: json!(-1), res: empty_res(), notifs: vec![] }
+                        Answer::plain("lost")
                     }
                     "open" => {
                         let req = request_of(r, n);
@@ -385,37 +447,64 @@ impl Sut {
                             key: OrderKey { exchange: req.key.exchange, instrument: &req.key.instrument, strategy: req.key.strategy.clone(), cid: req.key.cid.clone() },
                             state: req.state.clone(),
                         };
-                        let resp = client.open_order(req_ref).await;
+                        let resp = call(client.open_order(req_ref), inflight, task).await;
                         let (out, why, id, filled, rt) = response_json(&resp);
-                        Answer { out, why, id, filled, rt, res: empty_res(), notifs: vec![] }
+                        Answer { out, why, id, filled, rt, echo: echoes(&resp, &req), res: empty_res(), notifs: vec![] }
                     }
-                    "snapshot" => match client.account_snapshot(&[], &[]).await {
+                    "cancel" => {
+                        let instrument = InstrumentNameExchange::new(s(r, "instr"));
+                        let key = OrderKey { exchange: EXCHANGE, instrument: instrument.clone(), strategy: StrategyId::new("vh"), cid: ClientOrderId::new(format!("c{n}")) };
+                        let req = OrderRequestCancel {
+                            key: OrderKey { exchange: EXCHANGE, instrument: &instrument, strategy: key.strategy.clone(), cid: key.cid.clone() },
+                            state: RequestCancel { id: None },
+                        };
+                        let resp = call(client.cancel_order(req), inflight, task).await;
+                        let mut a = Answer::plain(match &resp.state {
+                            Ok(_) => "cancelled",
+                            Err(UnindexedOrderError::Rejected(_)) => "rej",
+                            Err(UnindexedOrderError::Connectivity(c)) => offline_str(c),
+                        });
+                        a.echo = (resp.key == key) as i64;
+                        a
+                    }
+                    "snapshot" => match call(client.account_snapshot(&[], &[]), inflight, task).await {
                         Ok(snap) => {
                             let mut res = empty_res();
                             res["bal"] = bal_json(snap.balances.iter());
                             res["open"] = snapshot_orders_json(&snap);
                             Answer::query(res)
                         }
-                        Err(_) => Answer::offline(),
+                        Err(e) => Answer::failed(&e),
                     },
-                    "balances" => match client.fetch_balances().await {
+                    "balances" => match call(client.fetch_balances(), inflight, task).await {
                         Ok(b) => {
                             let mut res = empty_res();
                             res["bal"] = bal_json(b.iter());
                             Answer::query(res)
                         }
-                        Err(_) => Answer::offline(),
+                        Err(e) => Answer::failed(&e),
                     },
-                    "trades" => match client.fetch_trades(time_ms(i(r, "since"))).await {
+                    "orders" => match call(client.fetch_open_orders(), inflight, task).await {
+                        Ok(o) => {
+                            let mut res = empty_res();
+                            res["open"] = Value::Array(o.iter().map(open_order_json).collect());
+                            Answer::query(res)
+                        }
+                        Err(e) => Answer::failed(&e),
+                    },
+                    "trades" => match call(client.fetch_trades(time_ms(i(r, "since"))), inflight, task).await {
                         Ok(tr) => {
                             let mut res = empty_res();
                             res["trades"] = Value::Array(tr.iter().map(trade_json).collect());
                             Answer::query(res)
                         }
-                        Err(_) => Answer::offline(),
+                        Err(e) => Answer::failed(&e),
                     },
                     o => usage(&format!("unknown op {o}")),
                 };
+                if inflight {
+                    *killed = true;
+                }
                 // let everything the exchange scheduled for this request be delivered, then take
                 // what arrived on the account stream (virtual time: costs nothing)
                 tokio::time::sleep(std::time::Duration::from_millis(1)).await;
@@ -424,7 +513,9 @@ impl Sut {
                 }
                 // the property counts notifications per order; their mutual order is left open
                 answer.notifs.sort_by(|a, b| a["k"].as_str().cmp(&b["k"].as_str()));
-                if answer.out == "offline" || task.is_finished() {
+                // an exchange the harness did not end must be alive and answering (a running exchange
+                // answers a cancel by dropping the response sender: "offline" is its normal answer)
+                if !*killed && (task.is_finished() || (answer.out == "offline" && op != "cancel")) {
                     return Err("the MockExchange::run task terminated (panic in the request loop)".into());
                 }
                 Ok(answer)
@@ -432,28 +523,48 @@ impl Sut {
         }
     }
 
+    fn is_killed(&self) -> bool {
+        matches!(self, Sut::Run { killed: true, .. })
+    }
+
     /// Projected ledger (without the notification history, which the harness accumulates).
-    async fn project(&mut self) -> Result<Value, String> {
+    /// None: the exchange task was ended by the harness, its ledger cannot be observed any more.
+    async fn project(&mut self) -> Result<Option<Value>, String> {
         match self {
-            Sut::Direct { ex, .. } => Ok(json!({
+            Sut::Direct { ex, .. } => Ok(Some(json!({
                 "bal": bal_json(ex.account.balances()),
-                "open": Value::Array(ex.account.orders_open().map(open_order_json).collect()),
+                "open": Value::Array(ex.account.orders_open().map(open_order_json).chain(ex.account.orders_cancelled().map(cancelled_order_json)).collect()),
                 "trades": Value::Array(ex.account.trades(DateTime::<Utc>::MIN_UTC).map(trade_json).collect()),
-            })),
+            }))),
+            Sut::Run { killed: true, .. } => Ok(None),
             Sut::Run { client, .. } => {
                 // same client clock as the request just served: the exchange clock does not move
                 let off = |_| "the MockExchange::run task terminated (panic in the request loop)".to_string();
                 let bal = client.fetch_balances().await.map_err(off)?;
                 let snap = client.account_snapshot(&[], &[]).await.map_err(off)?;
                 let trades = client.fetch_trades(DateTime::<Utc>::MIN_UTC).await.map_err(off)?;
-                Ok(json!({
+                Ok(Some(json!({
                     "bal": bal_json(bal.iter()),
                     "open": snapshot_orders_json(&snap),
                     "trades": Value::Array(trades.iter().map(trade_json).collect()),
-                }))
+                })))
             }
         }
     }
+}
+
+/// Await a client call; `inflight`: poll it once (the request is queued), end the exchange task,
+/// then keep waiting - the requester sees its response sender dropped.
+async fn call<F: std::future::Future>(fut: F, inflight: bool, task: &tokio::task::JoinHandle<()>) -> F::Output {
+    let mut fut = Box::pin(fut);
+    if inflight {
+        let first = futures::poll!(fut.as_mut());
+        task.abort();
+        if let std::task::Poll::Ready(v) = first {
+            return v;
+        }
+    }
+    fut.await
 }
 
 fn op_of(r: &Value) -> &str {
@@ -463,15 +574,27 @@ fn op_of(r: &Value) -> &str {
 /// One exchange life: Reset line + one line per request.
 struct Segment {
     sut: Sut,
+    direct: bool,
     notif: Vec<Value>,
+    /// the last observed ledger (without notifications)
+    ledger: Value,
     dead: bool,
     n: u64,
+}
+
+fn kill_req(t: i64, flag: i64) -> Value {
+    json!({"op": "kill", "t": t, "side": "none", "p": 0, "q": 0, "instr": "none", "kind": "none", "since": 0, "drop": flag})
 }
 
 impl Segment {
     async fn start(out: &mut Out, mode: &str, init: &Value) -> (Self, Value) {
         let mut sut = Sut::new(mode, init).await;
-        let mut post = sut.project().await.unwrap_or_else(|p| json!({"panic": p}));
+        let ledger = match sut.project().await {
+            Ok(Some(p)) => p,
+            Ok(None) => unreachable!("a fresh exchange is observable"),
+            Err(p) => json!({"panic": p}),
+        };
+        let mut post = ledger.clone();
         if post.get("panic").is_none() {
             post["notif"] = json!([]);
         }
@@ -480,34 +603,64 @@ impl Segment {
             "cfg": {"bal": init["bal"], "open": init["open"]},
             "post": post,
         }));
-        (Self { sut, notif: vec![], dead: false, n: 0 }, post)
+        let mut seg = Self { sut, direct: mode == "direct", notif: vec![], ledger, dead: false, n: 0 };
+        // `"up": false`: the exchange task has ended before the first request
+        if init.get("up").and_then(|u| u.as_bool()) == Some(false) {
+            post = seg.step(out, &kill_req(0, 0)).await;
+        }
+        (seg, post)
+    }
+
+    fn post(&self) -> Value {
+        let mut p = self.ledger.clone();
+        if p.get("panic").is_none() {
+            p["notif"] = Value::Array(self.notif.clone());
+        }
+        p
     }
 
     async fn step(&mut self, out: &mut Out, r: &Value) -> Value {
+        let op = op_of(r);
+        let flag = r.get("drop").and_then(|d| d.as_i64()).unwrap_or(0);
+        // mode direct has no exchange task and no client: these events do not exist there;
+        // a recorded in-flight kill line is re-created by the request that follows it
+        if (self.direct && (op == "kill" || op == "cancel")) || (op == "kill" && flag == 3) {
+            return self.post();
+        }
         self.n += 1;
         let mut line = json!({
-            "a": op_of(r), "t": i(r, "t"), "side": s(r, "side"), "p": i(r, "p"), "q": i(r, "q"),
+            "a": op, "t": i(r, "t"), "side": s(r, "side"), "p": i(r, "p"), "q": i(r, "q"),
             "instr": s(r, "instr"), "kind": s(r, "kind"), "since": i(r, "since"),
-            "drop": r.get("drop").and_then(|d| d.as_i64()).unwrap_or(0),
+            "drop": if self.direct { 0 } else { flag },
         });
+        let was_killed = self.sut.is_killed();
         let served = if self.dead { Err("the exchange is gone after an earlier panic".to_string()) } else { self.sut.serve(r, self.n).await };
-        let post = match served {
+        match served {
             Ok(a) => {
+                if !was_killed && self.sut.is_killed() && op != "kill" {
+                    // the task was ended while this request was in flight: that is a step of its own
+                    let k = kill_req(i(r, "t"), 3);
+                    let mut kl = json!({
+                        "a": "kill", "t": i(&k, "t"), "side": "none", "p": 0, "q": 0, "instr": "none", "kind": "none", "since": 0, "drop": 3,
+                        "out": "killed", "why": "-", "id": -1, "filled": 0, "rt": -1, "echo": 1, "res": empty_res(),
+                    });
+                    kl["post"] = self.post();
+                    out.line(&kl);
+                }
                 line["out"] = a.out;
                 line["why"] = a.why;
                 line["id"] = a.id;
                 line["filled"] = a.filled;
                 line["rt"] = a.rt;
+                line["echo"] = json!(a.echo);
                 line["res"] = a.res;
                 self.notif.extend(a.notifs);
                 match self.sut.project().await {
-                    Ok(mut p) => {
-                        p["notif"] = Value::Array(self.notif.clone());
-                        p
-                    }
+                    Ok(Some(p)) => self.ledger = p,
+                    Ok(None) => {} // ended by the harness: unobservable, the last ledger stands
                     Err(p) => {
                         self.dead = true;
-                        json!({"panic": p})
+                        self.ledger = json!({"panic": p});
                     }
                 }
             }
@@ -518,10 +671,12 @@ impl Segment {
                 line["id"] = json!(-1);
                 line["filled"] = json!(0);
                 line["rt"] = json!(-1);
+                line["echo"] = json!(1);
                 line["res"] = empty_res();
-                json!({"panic": p})
+                self.ledger = json!({"panic": p});
             }
         };
+        let post = self.post();
         line["post"] = post.clone();
         out.line(&line);
         post
@@ -538,7 +693,11 @@ impl Segment {
 // seeded random driver
 // ---------------------------------------------------------------------------------------------
 fn resting(c: &str) -> Value {
-    if c == "o1" {
+    if c == "o3" {
+        json!({"cid": "o3", "instr": "btc_usdt", "side": "sell", "p": 2, "q": 1, "filled": 0, "st": "cancelled"})
+    } else if c == "o4" {
+        json!({"cid": "o4", "instr": "eth_btc", "side": "buy", "p": 3, "q": 2, "filled": 0, "st": "cancelled"})
+    } else if c == "o1" {
         json!({"cid": "o1", "instr": "btc_usdt", "side": "buy", "p": 1, "q": 1, "filled": 0, "st": "open"})
     } else {
         json!({"cid": c, "instr": "eth_btc", "side": "sell", "p": 2, "q": 2, "filled": 0, "st": "open"})
@@ -557,8 +716,10 @@ fn random_world(rng: &mut rand::rngs::StdRng) -> Value {
         };
         bal.insert(a.to_string(), json!({"total": v, "free": v}));
     }
-    let open: Vec<Value> = ["o1", "o2"].iter().filter(|_| rng.random_bool(0.4)).map(|c| resting(c)).collect();
-    json!({"fee": fee, "lat": lat, "bal": bal, "open": open})
+    // open and cancelled orders, possibly several on one instrument
+    let open: Vec<Value> = ["o1", "o2", "o3", "o4"].iter().filter(|_| rng.random_bool(0.4)).map(|c| resting(c)).collect();
+    // now and then the exchange task has already ended when the first request is made
+    json!({"fee": fee, "lat": lat, "bal": bal, "open": open, "up": !rng.random_bool(0.04)})
 }
 
 fn open_req(t: i64, side: &str, p: i64, q: i64, instr: &str, kind: &str) -> Value {
@@ -574,7 +735,13 @@ fn random_request(rng: &mut rand::rngs::StdRng, world: &Value, post: &Value, t: 
     let (instr, base, quote) = LISTED[rng.random_range(0..LISTED.len())];
     let mut p = rng.random_range(1..=5);
     let mut q = rng.random_range(1..=4);
-    match rng.random_range(0..100) {
+    // quantities are signed in this code base: the amount of an order is the magnitude
+    let sign = match rng.random_range(0..20) {
+        0..=2 => -1,
+        3 => 0,
+        _ => 1,
+    };
+    match rng.random_range(0..108) {
         0..=61 => {
             // every third market order aims at the boundary: an amount the spent asset covers exactly
             // (or misses by the smallest step), for both readings of "the spent asset"
@@ -594,12 +761,18 @@ fn random_request(rng: &mut rand::rngs::StdRng, world: &Value, post: &Value, t: 
                     (p, q) = hits[rng.random_range(0..hits.len())];
                 }
             }
-            open_req(t, side, p, q, instr, "market")
+            open_req(t, side, p, sign * q, instr, "market")
         }
-        62..=69 => open_req(t, side, p, q, instr, "limit"),
-        70..=77 => open_req(t, side, p, q, UNLISTED, if rng.random_bool(0.8) { "market" } else { "limit" }),
+        62..=69 => open_req(t, side, p, sign * q, instr, "limit"),
+        70..=77 => open_req(t, side, p, sign * q, UNLISTED, if rng.random_bool(0.8) { "market" } else { "limit" }),
         78..=84 => query_req("snapshot", t, 0),
         85..=90 => query_req("balances", t, 0),
+        100..=104 => query_req("orders", t, 0),
+        105..=107 => {
+            let mut c = query_req("cancel", t, 0);
+            c["instr"] = json!(if rng.random_bool(0.8) { instr } else { UNLISTED });
+            c
+        }
         _ => {
             // around the time of some fill, or anywhere
             let trades = post["trades"].as_array().cloned().unwrap_or_default();
@@ -613,6 +786,33 @@ fn random_request(rng: &mut rand::rngs::StdRng, world: &Value, post: &Value, t: 
     }
 }
 
+/// A full round of queries: account snapshot, balances, open orders, and trade queries whose
+/// `time_since` lies below, at, between and above the recorded fill times.
+fn query_round(rng: &mut rand::rngs::StdRng, post: &Value, t: i64) -> Vec<Value> {
+    let mut times: Vec<i64> = post["trades"].as_array().map(|v| v.iter().filter_map(|x| x["t"].as_i64()).collect()).unwrap_or_default();
+    times.sort();
+    times.dedup();
+    let mut sinces = vec![];
+    if let (Some(lo), Some(hi)) = (times.first().copied(), times.last().copied()) {
+        sinces.push((lo - 1).max(0));
+        sinces.push(hi + 1);
+        sinces.push(times[rng.random_range(0..times.len())]);
+        for w in times.windows(2) {
+            if w[1] - w[0] > 1 && rng.random_bool(0.6) {
+                sinces.push(w[0] + rng.random_range(1..w[1] - w[0]));
+            }
+        }
+        if times.len() >= 2 {
+            sinces.push(times[times.len() / 2]);
+        }
+    } else {
+        sinces.push(rng.random_range(0..=t + 5));
+    }
+    let mut v = vec![query_req("snapshot", t, 0), query_req("balances", t, 0), query_req("orders", t, 0)];
+    v.extend(sinces.into_iter().map(|x| query_req("trades", t, x)));
+    v
+}
+
 #[tokio::main(flavor = "current_thread", start_paused = true)]
 async fn main() {
     let args = Args::parse();
@@ -624,14 +824,25 @@ async fn main() {
             // --abandon K (mode run): every K-th open-order request of the scenarios is abandoned
             let every = if mode == "run" { args.usize("abandon", 0) } else { 0 };
             let mut opens = 0usize;
+            let mut kills = 0usize;
             for scn in read_ndjson(args.req("scenarios")) {
                 let (mut seg, _) = Segment::start(&mut out, &mode, &scn["init"]).await;
                 segments += 1;
+                let mut pending_inflight = false;
                 for e in scn["evs"].as_array().expect("evs") {
                     let mut r = e.get("req").unwrap_or(e).clone();
-                    if mode != "run" {
-                        r["drop"] = json!(0);
-                    } else if every > 0 && op_of(&r) == "open" {
+                    // every other generated "kill" strikes while the request after it is in flight
+                    if mode == "run" && every > 0 && op_of(&r) == "kill" && r.get("drop").is_none() {
+                        kills += 1;
+                        if kills % 2 == 0 {
+                            pending_inflight = true;
+                            continue;
+                        }
+                    }
+                    if pending_inflight && op_of(&r) != "kill" {
+                        r["drop"] = json!(3);
+                        pending_inflight = false;
+                    } else if mode == "run" && every > 0 && op_of(&r) == "open" && r.get("drop").is_none() {
                         opens += 1;
                         if opens % every == 0 {
                             r["drop"] = json!(1 + (opens / every) % 2);
@@ -652,19 +863,35 @@ async fn main() {
                 let (mut seg, mut post) = Segment::start(&mut out, &mode, &world).await;
                 segments += 1;
                 let mut t: i64 = rng.random_range(0..5);
-                for _ in 0..seglen {
-                    // the client clock mostly advances, sometimes stands still, sometimes jumps back
+                // mode run: some exchanges are ended on the way, between two requests or while one is in flight
+                let kill_at = if mode == "run" && rng.random_bool(0.15) { Some((rng.random_range(2..seglen.max(3)), rng.random_bool(0.5))) } else { None };
+                let rounds = [rng.random_range(3..seglen.max(4)), rng.random_range(3..seglen.max(4))];
+                let mut k = 0;
+                while k < seglen {
+                    // the client clock advances, stands still, steps back a little or jumps back far:
+                    // request times (hence fill times) are in no particular order
                     t = match rng.random_range(0..10) {
                         0 => rng.random_range(0..=t),
-                        1..=3 => t,
+                        1 => (t - rng.random_range(1..=3)).max(0),
+                        2..=3 => t,
                         _ => t + rng.random_range(1..=4),
                     };
-                    let mut r = random_request(&mut rng, &world, &post, t);
-                    if mode == "run" && op_of(&r) == "open" && rng.random_range(0..8) == 0 {
-                        r["drop"] = json!(rng.random_range(1..=2));
+                    let batch = if rounds.contains(&k) { query_round(&mut rng, &post, t) } else { vec![random_request(&mut rng, &world, &post, t)] };
+                    for mut r in batch {
+                        if mode == "run" && op_of(&r) == "open" && rng.random_range(0..8) == 0 {
+                            r["drop"] = json!(rng.random_range(1..=2));
+                        }
+                        if let Some((at, inflight)) = kill_at {
+                            if at == k && inflight {
+                                r["drop"] = json!(3);
+                            } else if at == k {
+                                seg.step(&mut out, &kill_req(t, 0)).await;
+                            }
+                        }
+                        post = seg.step(&mut out, &r).await;
+                        done += 1;
+                        k += 1;
                     }
-                    post = seg.step(&mut out, &r).await;
-                    done += 1;
                     if post.get("panic").is_some() {
                         break;
                     }
